@@ -102,6 +102,20 @@ def off_boundary(s, mode, cn, cd):
     return all(_disc(s, k, p) * cd != t for k in range(len(s)))
 
 
+def margin(s, mode, cn, cd):
+    """distance (in units of s, s^2 or s^1 sums) between the threshold and the nearest decision
+    quantity: the larger scope keeps it well above the float32 noise of a Gram-matrix based SVD"""
+    if cn <= 0:
+        return 1.0
+    if mode == "abs":
+        return min(abs(x * cd - cn) for x in s) / cd
+    if mode == "rel":
+        return min(abs(x * cd - cn * s[0]) for x in s) / cd
+    p = 2 if mode in ("sum2", "rsum2") else 1
+    t = cn * (sum(x ** p for x in s) if mode.startswith("r") else 1)
+    return min(abs(_disc(s, k, p) * cd - t) for k in range(len(s))) / cd
+
+
 def renorm_power(renorm, mode):
     if renorm == 3:
         return {"sum2": 2, "rsum2": 2, "sum1": 1, "rsum1": 1}.get(mode, 0)
@@ -253,6 +267,8 @@ def measure(A, L, S, R, dtype, rescaled):
         ok &= R.ndim == 2 and R.shape[-1] == A.shape[1]
         ks.add(R.shape[0])
     if S is not None:
+        # (the order in which the values come is not documented for array_split: svd:eig returns them
+        #  ascending when it needs no truncation; they are compared as a multiset)
         S = np.asarray(S)
         ok &= S.ndim == 1
         ks.add(S.shape[0])
@@ -265,7 +281,7 @@ def measure(A, L, S, R, dtype, rescaled):
     o["svL2"] = _sv2(L, dtype)
     o["svR2"] = _sv2(R, dtype)
     if S is not None:
-        o["svS2"] = _snap_list(np.abs(S.astype(complex)) ** 2, dtype) if np.all(np.isfinite(S)) else [OFF]
+        o["svS2"] = _snap_list(np.sort(np.abs(S.astype(complex)) ** 2)[::-1], dtype) if np.all(np.isfinite(S)) else [OFF]
     o["isoL"] = _iso(L, "L", tol)
     o["isoR"] = _iso(R, "R", tol)
     seff = None
